@@ -23,6 +23,10 @@ every value `η ∈ (0,1)` of the auxiliary variable:
   are the two exact conditionals of `joint`;
 * `eta_marginal` — `∫₀¹ joint(x, η) dη = Γ(n) · Gamma(a,b)(x) x^K Γ(x)/Γ(x+n)`, the (unnormalised)
   conditional posterior of the concentration given `K` clones and `n` data points;
+* `eta_marginal_lintegral`, `eta_conditional_density`, `alpha_conditional_density` — the same three
+  facts in `ℝ≥0∞` / `∫⁻` form, as the objects of `GibbsTwoStage.gibbs_two_stage`: the marginal
+  `mX(x) = ∫⁻ joint(x, ·) = Γ(n) target(x)`, the quotient `c1 = joint / mX` is `betaPDF (x+1) n`, the
+  quotient `c2 = joint / mY` is the mixture density;
 * `conc_gibbs` — **the update is an exact Gibbs step**: the kernel
   `x ↦ (η ~ Beta(x+1, n); x' ~ π(η) Gamma(a+K, b - log η) + (1-π(η)) Gamma(a+K-1, b - log η))`
   leaves the measure with density `target a b K n` on `(0, ∞)` invariant, in the form
@@ -260,6 +264,64 @@ theorem conc_gibbs_partial (a b α L : ℚ) (K n : ℕ) (bern : Bool) (ha : 0 < 
   · rw [hsc, hR]; push_cast; ring
   · exact eta_marginal a b α K n hα' hn
 
+/-- **The marginal as a Lebesgue integral** (`mX` of `GibbsTwoStage`): for `x > 0`,
+`∫⁻_{(0,1)} joint(x, η) dη = Γ(n) · target(x)` in `ℝ≥0∞`. -/
+theorem eta_marginal_lintegral (a b x : ℝ) (K n : ℕ) (ha : 0 < a) (hb : 0 < b) (hx : 0 < x)
+    (hn : 1 ≤ n) :
+    ∫⁻ η in Ioo (0 : ℝ) 1, ENNReal.ofReal (joint a b K n x η)
+      = ENNReal.ofReal (Gamma n * target a b K n x) := by
+  have hn' : (0 : ℝ) < n := by exact_mod_cast hn
+  obtain ⟨Z, hZ⟩ := eta_conditional a b x K n hx hn
+  have hx1 : 0 < x + 1 := by linarith
+  rw [← eta_marginal a b x K n hx hn]
+  exact (GibbsTwoStage.ofReal_integral_of_factor (volume.restrict (Ioo (0 : ℝ) 1))
+    (joint a b K n x) (betaPDFReal (x + 1) n)
+    ((measurable_jointR a b K n).comp measurable_prodMk_left)
+    (ae_restrict_of_forall_mem measurableSet_Ioo fun η hη =>
+      jointR_nonneg ha hb hn' hx hη.1 hη.2)
+    (ae_restrict_of_forall_mem measurableSet_Ioo fun η hη =>
+      (betaPDFReal_pos hη.1 hη.2 hx1 hn').le)
+    (lintegral_betaPDFReal_Ioo hx1 hn') Z
+    (ae_restrict_of_forall_mem measurableSet_Ioo fun η hη => hZ η hη.1 hη.2)).symm
+
+/-- **The first conditional density is the Beta density** (`c1` of `GibbsTwoStage.gibbs_two_stage`):
+for `x > 0`, `η ∈ (0,1)`, `joint(x, η) / ∫⁻_{(0,1)} joint(x, ·) = betaPDF (x+1) n η`. -/
+theorem eta_conditional_density (a b x η : ℝ) (K n : ℕ) (ha : 0 < a) (hb : 0 < b) (hx : 0 < x)
+    (hn : 1 ≤ n) (h0 : 0 < η) (h1 : η < 1) :
+    ENNReal.ofReal (joint a b K n x η) / ∫⁻ η in Ioo (0 : ℝ) 1, ENNReal.ofReal (joint a b K n x η)
+      = betaPDF (x + 1) n η := by
+  have hn' : (0 : ℝ) < n := by exact_mod_cast hn
+  obtain ⟨Z, hZ⟩ := eta_conditional a b x K n hx hn
+  have hx1 : 0 < x + 1 := by linarith
+  exact GibbsTwoStage.quotient_eq_of_factor (volume.restrict (Ioo (0 : ℝ) 1))
+    (joint a b K n x) (betaPDFReal (x + 1) n)
+    (ae_restrict_of_forall_mem measurableSet_Ioo fun η hη =>
+      jointR_nonneg ha hb hn' hx hη.1 hη.2)
+    (ae_restrict_of_forall_mem measurableSet_Ioo fun η hη =>
+      (betaPDFReal_pos hη.1 hη.2 hx1 hn').le)
+    (lintegral_betaPDFReal_Ioo hx1 hn') Z
+    (ae_restrict_of_forall_mem measurableSet_Ioo fun η hη => hZ η hη.1 hη.2)
+    η (hZ η h0 h1) (jointR_pos ha hb hn' hx h0 h1) (betaPDFReal_pos h0 h1 hx1 hn').le
+
+/-- **The second conditional density is the mixture density** (`c2` of
+`GibbsTwoStage.gibbs_two_stage`): for `η ∈ (0,1)`, `x > 0`,
+`joint(x, η) / ∫⁻_{(0,∞)} joint(·, η)` is the Escobar–West mixture density at `x`. -/
+theorem alpha_conditional_density (a b x η : ℝ) (K n : ℕ) (ha : 0 < a) (hb : 0 < b) (hK : 1 ≤ K)
+    (hn : 1 ≤ n) (h0 : 0 < η) (h1 : η < 1) (hx : 0 < x) :
+    ENNReal.ofReal (joint a b K n x η) / ∫⁻ x in Ioi (0 : ℝ), ENNReal.ofReal (joint a b K n x η)
+      = ENNReal.ofReal (weight a b K n η * gammaPDFReal (a + K) (b - log η) x
+          + (1 - weight a b K n η) * gammaPDFReal (a + K - 1) (b - log η) x) := by
+  have hK' : (1 : ℝ) ≤ K := by exact_mod_cast hK
+  have hn' : (0 : ℝ) < n := by exact_mod_cast hn
+  obtain ⟨D, hD⟩ := alpha_conditional a b η K n ha hb hK hn h0 h1
+  exact GibbsTwoStage.quotient_eq_of_factor (volume.restrict (Ioi (0 : ℝ)))
+    (fun x => joint a b K n x η) (mixR a b K n η)
+    (ae_restrict_of_forall_mem measurableSet_Ioi fun x hx => jointR_nonneg ha hb hn' hx h0 h1)
+    (ae_of_all _ (mixR_nonneg ha hb hK' hn' h0 h1))
+    (lintegral_mixR_Ioi ha hb hK' hn' h0 h1) D
+    (ae_restrict_of_forall_mem measurableSet_Ioi fun x hx => hD x hx)
+    x (hD x hx) (jointR_pos ha hb hn' hx h0 h1) (mixR_nonneg ha hb hK' hn' h0 h1 x)
+
 /-- **C13: the update is an exact Gibbs step.**  For `a, b > 0`, `1 ≤ K`, `1 ≤ n`: if the
 concentration `x` is distributed with density `target a b K n` w.r.t. Lebesgue measure on `(0, ∞)`,
 `η` is drawn from Beta(`x+1`, `n`) and then `x'` from the mixture
@@ -420,18 +482,7 @@ theorem posterior_finite_pos (a b : ℝ) (K n : ℕ) (ha : 0 < a) (hb : 0 < b) (
     have hfin := lintegral_jointR_lt_top (k := K) (n := n) ha hb hK' hn1
     have hx : ∀ x ∈ Ioi (0 : ℝ), ∫⁻ η in Ioo (0 : ℝ) 1, ENNReal.ofReal (jointR a b K n x η)
         = ENNReal.ofReal (Gamma n) * ENNReal.ofReal (target a b K n x) := fun x hx => by
-      obtain ⟨Z, hZ⟩ := eta_conditional a b x K n hx hn
-      have hx1 : 0 < x + 1 := by linarith [mem_Ioi.mp hx]
-      rw [← ENNReal.ofReal_mul hG.le, ← eta_marginal a b x K n hx hn]
-      exact (GibbsTwoStage.ofReal_integral_of_factor (volume.restrict (Ioo (0 : ℝ) 1))
-        (joint a b K n x) (betaPDFReal (x + 1) n)
-        ((measurable_jointR a b K n).comp measurable_prodMk_left)
-        (ae_restrict_of_forall_mem measurableSet_Ioo fun η hη =>
-          jointR_nonneg ha hb hn' hx hη.1 hη.2)
-        (ae_restrict_of_forall_mem measurableSet_Ioo fun η hη =>
-          (betaPDFReal_pos hη.1 hη.2 hx1 hn').le)
-        (lintegral_betaPDFReal_Ioo hx1 hn') Z
-        (ae_restrict_of_forall_mem measurableSet_Ioo fun η hη => hZ η hη.1 hη.2)).symm
+      rw [← ENNReal.ofReal_mul hG.le]; exact eta_marginal_lintegral a b x K n ha hb hx hn
     rw [setLIntegral_congr_fun measurableSet_Ioi hx,
       lintegral_const_mul' _ _ ENNReal.ofReal_ne_top] at hfin
     intro htop
@@ -447,7 +498,8 @@ example : plan (1/100) (1/100) 1 2 5 (3/10) true = some (.mix
       scale := 100/31 }) := by
   norm_num [plan, rate, odds, shape0, piOf, shapeOf]
 
-/-- `mixture_density_identity`, `alpha_conditional`, `eta_conditional`, `eta_marginal`: the real
+/-- `mixture_density_identity`, `alpha_conditional`, `eta_conditional`, `eta_marginal`,
+`eta_marginal_lintegral`, `eta_conditional_density`, `alpha_conditional_density`: the real
 hypotheses hold at `a = b = 1/100`, `η = 1/2`, `K = 2`, `n = 5`, `x = 1` -/
 example : (0 : ℝ) < 1/100 ∧ (1 : ℕ) ≤ 2 ∧ (1 : ℕ) ≤ 5 ∧ (0 : ℝ) < 1/2 ∧ (1/2 : ℝ) < 1 ∧ (0 : ℝ) < 1 := by
   norm_num
